@@ -280,6 +280,9 @@ theorem observations_clean (ops : List WOp) : ∀ (w : World), WorldOK w →
           | call fname args =>
             simp only [stepCtx] at hcl hso ⊢
             exact ⟨top0 _ hcl, hcl.base, hso.inv.1.nofault⟩
+          | calls fname texts =>
+            simp only [stepCtx] at hcl hso ⊢
+            exact ⟨top0 _ hcl, hcl.base, hso.inv.1.nofault⟩
           | loop =>
             simp only [stepCtx] at hcl hso ⊢
             exact ⟨top0 _ hcl, hcl.base, hso.inv.1.nofault⟩
